@@ -2486,3 +2486,31 @@ def oneshot_fields(R, RID):
                      func=fi, node=x, construct='one-shot iterator stored in %s.%s' % (fi.cls.qual, tg[0].attr))
     R.ob(RID, 'no field holds a one-shot iterator', True, '', func=None, node=None, construct='one-shot iterator fields')
     need(n >= 50, 'field stores not found')
+
+
+def exception_text_total(R, RID):
+    """run() turns failures into events with '{}'.format(error) inside its handlers: rendering an exception of the package
+    must not be able to fail.  An exception class that defines its own __str__ / __repr__ / __format__ doing formatting work
+    (% / .format / calls) can raise there (a %d given None ...) - the handler then fails and no terminal event is produced."""
+    n = 0
+    for q, c in sorted(R.prog.classes.items()):
+        if c.module.name.startswith('examples'):
+            continue
+        if not any(b.split('.')[-1] in ('Exception', 'BaseException') or b.split('.')[-1].endswith('Error')
+                   for b in R.prog.ext_bases(q)):
+            continue
+        n += 1
+        for mname in ('__str__', '__repr__', '__format__', '__unicode__'):
+            fi = c.methods.get(mname)
+            if fi is None:
+                continue
+            work = [x for x in own_nodes(fi.node) if isinstance(x, ast.Call) or (
+                isinstance(x, ast.BinOp) and isinstance(x.op, ast.Mod)) or isinstance(x, ast.JoinedStr)]
+            R.ob(RID, 'rendering %s cannot fail' % q, not work,
+                 '%s.%s formats its message when the exception is rendered (%s): a value the format cannot take (None for %%d, '
+                 'a brace in the text ...) makes str(error) raise inside run()\'s failure handler - the exception leaves the '
+                 'event iterator and no ConnectFail / Disconnected is produced' % (q, mname, [U(x)[:40] for x in work][:2]),
+                 func=fi, node=fi.node, construct='%s.%s' % (q, mname))
+    need(n >= 8, 'exception classes of the package not found')
+    R.ob(RID, 'exception classes render without formatting work', True, '', func=None, node=None,
+         construct='exception rendering scan')
